@@ -66,3 +66,15 @@ Theorem C19_analysis_per :
     same_vals (even_len (tH x) / 2) (even_len (tW x) / 2) y1 y2)).
 Proof. exact @nonsep_per_eq. Qed.
 Print Assumptions C19_analysis_per.
+(* synthesis, periodization: even filter lengths with L - 2 <= the output length on each axis, ANY four bands *)
+From PW Require Import Proofs.C19ProofsSynPer.
+Theorem C19_synthesis_per :
+  forall (R:Type) (Op:Ops R) (Rth:RingOk Op) (x:@ten R) Ly g0c g1c Lx g0r g1r,
+  2 <= Ly -> Ly mod 2 = 0 -> 2 <= Lx -> Lx mod 2 = 0 -> 1 <= tH x -> 1 <= tW x -> 0 < tC x -> tC x mod 4 = 0 ->
+  Ly - 2 <= 2 * tH x -> Lx - 2 <= 2 * tW x ->
+  is_ok (sfb2d_nonsep Op x Ly g0c g1c Lx g0r g1r M_PER) (fun y1 =>
+  is_ok (sfb2d Op (band4 0 x) (band4 1 x) (band4 2 x) (band4 3 x) Lx g0r g1r Ly g0c g1c M_PER) (fun y2 =>
+    tN y2 = tN y1 /\ tC y2 = tC y1 /\ tH y1 = 2 * tH x /\ tH y2 = 2 * tH x /\ tW y1 = 2 * tW x /\ tW y2 = 2 * tW x /\
+    forall n c i j, 0 <= c < tC x / 4 -> 0 <= i < 2 * tH x -> 0 <= j < 2 * tW x -> tf y1 n c i j = tf y2 n c i j)).
+Proof. exact @nonsep_syn_per_eq. Qed.
+Print Assumptions C19_synthesis_per.
